@@ -54,7 +54,7 @@ var reCollection = regexp.MustCompile(`^([a-z]|X[0-9]+)s$`)
 func C07(e *core.Env) {
 	res := e.Res
 	res.Rule = "cases = well-formed declarative profiles that must compile: (a) N nested constraints side by side in one validation, N in 1..40 crossing the 25-letter boundary (quick: 14 values, thorough: all), (b) nesting depth 1..7, (c) 1..30 validations over the three levels, (d) every documented constraint kind x path shape (single, sequence, alternative, inverse, alternative inside a sequence inside an alternative, @type), (e) several constraints of one kind in one rule body (or / if / not-and), with messages of 0..3 placeholders, (f) seeded random formulas; " +
-		"for (a) and (b) the quantified variables and collections found in the real module (parsed with the engine's parser) must be exactly the model's var_name / plural; (i) the string literal written for 12 patterns and the set literal written for 6 value lists, text against text with the Coq model; (h) 28 legal but degenerate / unusual arguments (empty lists, zero counts, patterns with a backtick / quote / backslash class / newline, path keys over several lines or with tabs, zero / negative / float bounds, quantifier counts 0 and 10^6) plain and under not; (j) 8 level listings (a validation under two / three levels, twice under one level, a level listing only validations another level lists too); (k) histories: two well-formed profiles compiled three times after each of 6 refused profiles (undeclared prefix in a path / class / placeholder, broken Rego, a non-path, no YAML); (m) the text of whole rules (one-branch validations: a count / length / pattern / datatype / numeric-bound / `in` / containsAll / containsSome / property-pair constraint plain or under `not`, an `or` of two, over three path shapes, three levels, names with quotes and percent signs, messages with 0-2 placeholders), every line against RuleGen.rule_lines; (l) the text of the path rules (values and nodes mode) of every path with <= 2 leaves and a sample with 3, over regular and custom (api-extension) properties, line by line against PathGen.path_rule_lines; (g) 24 texts (each control / format / astral / quoting character on its own) x {profile name, validation name, message, list value}; non-trivial = every case; distinct by profile text"
+		"for (a) and (b) the quantified variables and collections found in the real module (parsed with the engine's parser) must be exactly the model's var_name / plural; (i) the string literal written for 12 patterns and the set literal written for 6 value lists, text against text with the Coq model; (h) 28 legal but degenerate / unusual arguments (empty lists, zero counts, patterns with a backtick / quote / backslash class / newline, path keys over several lines or with tabs, zero / negative / float bounds, quantifier counts 0 and 10^6) plain and under not; (j) 8 level listings (a validation under two / three levels, twice under one level, a level listing only validations another level lists too); (k) histories: two well-formed profiles compiled three times after each of 6 refused profiles (undeclared prefix in a path / class / placeholder, broken Rego, a non-path, no YAML); (m) the text of whole rules (one-branch validations: a count / length / pattern / datatype / numeric-bound / `in` / containsAll / containsSome / property-pair constraint plain or under `not`, an `or` of two, a conjunction of two (one rule per member) plain and under `not`, over three path shapes, three levels, names with quotes and percent signs, messages with 0-2 placeholders), every line against RuleGen.rule_lines; (l) the text of the path rules (values and nodes mode) of every path with <= 2 leaves and a sample with 3, over regular and custom (api-extension) properties, line by line against PathGen.path_rule_lines; (g) 24 texts (each control / format / astral / quoting character on its own) x {profile name, validation name, message, list value}; non-trivial = every case; distinct by profile text"
 	compile := func(label, profile string, known func(err error) bool) bool {
 		_, err := pkg.CompileProfile(profile, false, nil)
 		if err == nil {
@@ -516,6 +516,7 @@ func C07(e *core.Env) {
 			label, body string
 			atoms       []ratom
 			negated     bool
+			split       bool // one rule per constraint (a conjunction fails in as many ways as it has members)
 		}
 		cases := []rcase{}
 		n := 0
@@ -525,13 +526,20 @@ func C07(e *core.Env) {
 					continue
 				}
 				pc := fmt.Sprintf("    propertyConstraints:\n      %s:\n        %s: %s\n", yamlQuote(pth), a.key, a.val)
-				cases = append(cases, rcase{a.key + " on " + pth, pc, []ratom{a}, false})
-				cases = append(cases, rcase{"not " + a.key + " on " + pth, "    not:\n  " + strings.ReplaceAll(pc, "\n    ", "\n      "), []ratom{a}, true})
+				cases = append(cases, rcase{a.key + " on " + pth, pc, []ratom{a}, false, false})
+				cases = append(cases, rcase{"not " + a.key + " on " + pth, "    not:\n  " + strings.ReplaceAll(pc, "\n    ", "\n      "), []ratom{a}, true, false})
 			}
 		}
 		for _, ij := range [][2]int{{0, 6}, {4, 12}, {2, 7}, {5, 13}, {8, 14}, {9, 6}, {1, 15}, {10, 13}, {11, 3}, {16, 0}, {17, 14}, {23, 6}, {18, 2}, {21, 12}} {
 			a, b := atomsR[ij[0]], atomsR[ij[1]]
-			cases = append(cases, rcase{"or of " + a.key + " and " + b.key, fmt.Sprintf("    or:\n      - propertyConstraints:\n          ex.a:\n            %s: %s\n      - propertyConstraints:\n          ex.b / ex.c:\n            %s: %s\n", a.key, a.val, b.key, b.val), []ratom{a, b}, false})
+			cases = append(cases, rcase{"or of " + a.key + " and " + b.key, fmt.Sprintf("    or:\n      - propertyConstraints:\n          ex.a:\n            %s: %s\n      - propertyConstraints:\n          ex.b / ex.c:\n            %s: %s\n", a.key, a.val, b.key, b.val), []ratom{a, b}, false, false})
+		}
+		// conjunctions: one rule per member; a negated conjunction: one rule holding all members, negated
+		for _, ij := range [][2]int{{0, 6}, {3, 12}, {8, 16}, {18, 14}, {17, 9}} {
+			a, b := atomsR[ij[0]], atomsR[ij[1]]
+			pc := fmt.Sprintf("    propertyConstraints:\n      ex.a:\n        %s: %s\n      ex.b / ex.c:\n        %s: %s\n", a.key, a.val, b.key, b.val)
+			cases = append(cases, rcase{"and of " + a.key + " and " + b.key, pc, []ratom{a, b}, false, true})
+			cases = append(cases, rcase{"not and of " + a.key + " and " + b.key, "    not:\n  " + strings.ReplaceAll(pc, "\n    ", "\n      "), []ratom{a, b}, true, false})
 		}
 		for ci, c := range cases {
 			m := msgs[ci%len(msgs)]
@@ -558,111 +566,116 @@ func C07(e *core.Env) {
 					cur = append(cur, raw)
 				}
 			}
-			if len(rules) != 1 {
-				res.Violate("harness-error", fmt.Sprintf("%d rules where one branch was expected (%s)", len(rules), c.label), map[string]any{"no_failing_input_found": true, "broken": "C07 rule-text generator", "profile": profile, "rego_tail": core.Trunc(unit.Code[max(0, len(unit.Code)-1200):], 1200)})
+			wantRules, perRule := 1, len(c.atoms)
+			if c.split {
+				wantRules, perRule = len(c.atoms), 1
+			}
+			if len(rules) != wantRules {
+				res.Violate("harness-error", fmt.Sprintf("%d rules where %d were expected (%s)", len(rules), wantRules, c.label), map[string]any{"no_failing_input_found": true, "broken": "C07 rule-text generator", "profile": profile, "rego_tail": core.Trunc(unit.Code[max(0, len(unit.Code)-1200):], 1200)})
 				continue
 			}
-			rule := rules[0]
-			// the snippets in the order of the real text: kind and numbers from the binding line, path comment, trace path
-			snips := []sx.V{}
-			var src string
-			var pending *sx.V
-			okShape := true
-			for _, raw := range rule {
-				line := strings.TrimSpace(raw)
-				if strings.HasPrefix(line, "#  querying path: ") {
-					src = strings.TrimPrefix(line, "#  querying path: ")
-				}
-				byKind := func(kind string) (ratom, bool) {
-					for _, a := range c.atoms {
-						if a.kind == kind {
-							return a, true
+			for _, rule := range rules {
+				// the snippets in the order of the real text: kind and numbers from the binding line, path comment, trace path
+				snips := []sx.V{}
+				var src string
+				var pending *sx.V
+				okShape := true
+				for _, raw := range rule {
+					line := strings.TrimSpace(raw)
+					if strings.HasPrefix(line, "#  querying path: ") {
+						src = strings.TrimPrefix(line, "#  querying path: ")
+					}
+					byKind := func(kind string) (ratom, bool) {
+						for _, a := range c.atoms {
+							if a.kind == kind {
+								return a, true
+							}
 						}
+						return ratom{}, false
 					}
-					return ratom{}, false
+					if mm := reCount.FindStringSubmatch(line); mm != nil {
+						a, ok := byKind("count")
+						okShape = okShape && ok
+						v := sx.L(sx.A("count"), sx.S(src), sx.S(mm[2]), sx.A(mm[1]), sx.B(a.perValue), sx.B(c.negated), sx.S(a.cond), sx.I(a.k), sx.S(a.key))
+						pending = &v
+					} else if mm := rePat.FindStringSubmatch(line); mm != nil {
+						a, ok := byKind("pattern")
+						okShape = okShape && ok
+						shown, _ := json.Marshal(a.pat)
+						v := sx.L(sx.A("pattern"), sx.S(src), sx.S(mm[1]), sx.A(mm[2]), sx.B(c.negated), sx.S(a.pat), sx.S(string(shown)))
+						pending = &v
+					} else if mm := reDt.FindStringSubmatch(line); mm != nil {
+						a, ok := byKind("datatype")
+						okShape = okShape && ok
+						v := sx.L(sx.A("datatype"), sx.S(src), sx.S(mm[2]), sx.A(mm[1]), sx.B(c.negated), sx.S(a.dt))
+						pending = &v
+					} else if mm := reCmpA.FindStringSubmatch(line); mm != nil {
+						a, ok := byKind("cmp")
+						okShape = okShape && ok
+						// (cmp srcA ruleA srcB ruleB negated cid op): srcB / ruleB are filled in at the second binding line
+						v := sx.L(sx.A("cmp"), sx.S(src), sx.S(mm[1]), sx.S(""), sx.S(""), sx.B(c.negated), sx.S(a.cid), sx.S(a.cond))
+						pending = &v
+					} else if mm := reCmpB.FindStringSubmatch(line); mm != nil && pending != nil && pending.List[0].Atom == "cmp" {
+						pending.List[3], pending.List[4] = sx.S(src), sx.S(mm[1])
+					} else if mm := reNum.FindStringSubmatch(line); mm != nil {
+						a, ok := byKind("numeric")
+						okShape = okShape && ok
+						v := sx.L(sx.A("numeric"), sx.S(src), sx.S(mm[2]), sx.A(mm[1]), sx.B(c.negated), sx.S(a.cid), sx.S(a.cond), sx.S(a.ktext))
+						pending = &v
+					} else if mm := reIn.FindStringSubmatch(line); mm != nil {
+						a, _ := byKind("in") // (a containsAll / containsSome snippet starts with the same line; decided below)
+						vs := []sx.V{}
+						for _, x := range a.vals {
+							vs = append(vs, sx.S(x))
+						}
+						// (in src rule n1 n2 negated vals): n1 is filled in when the line binding the value set is met
+						v := sx.L(sx.A("in"), sx.S(src), sx.S(mm[2]), sx.A("0"), sx.A(mm[1]), sx.B(c.negated), sx.L(vs...))
+						pending = &v
+					} else if mm := reInSet.FindStringSubmatch(line); mm != nil && pending != nil && pending.List[0].Atom == "in" {
+						pending.List[3] = sx.A(mm[1])
+					} else if mm := reContains.FindStringSubmatch(line); mm != nil && pending != nil && pending.List[0].Atom == "in" {
+						// the binding line looked like the one of `in`; the value set tells containsAll / containsSome
+						a, ok := byKind(mm[1])
+						okShape = okShape && ok
+						vs := []sx.V{}
+						for _, x := range a.vals {
+							vs = append(vs, sx.S(x))
+						}
+						v := sx.L(sx.A("contains"), sx.B(mm[1] == "containsAll"), pending.List[1], pending.List[2], pending.List[4], sx.A(mm[2]), sx.B(c.negated), sx.L(vs...))
+						pending = &v
+					} else if mm := reTrace.FindStringSubmatch(line); mm != nil && pending != nil {
+						pending.List = append(pending.List, sx.S(mm[2]))
+						snips = append(snips, *pending)
+						pending = nil
+					}
 				}
-				if mm := reCount.FindStringSubmatch(line); mm != nil {
-					a, ok := byKind("count")
-					okShape = okShape && ok
-					v := sx.L(sx.A("count"), sx.S(src), sx.S(mm[2]), sx.A(mm[1]), sx.B(a.perValue), sx.B(c.negated), sx.S(a.cond), sx.I(a.k), sx.S(a.key))
-					pending = &v
-				} else if mm := rePat.FindStringSubmatch(line); mm != nil {
-					a, ok := byKind("pattern")
-					okShape = okShape && ok
-					shown, _ := json.Marshal(a.pat)
-					v := sx.L(sx.A("pattern"), sx.S(src), sx.S(mm[1]), sx.A(mm[2]), sx.B(c.negated), sx.S(a.pat), sx.S(string(shown)))
-					pending = &v
-				} else if mm := reDt.FindStringSubmatch(line); mm != nil {
-					a, ok := byKind("datatype")
-					okShape = okShape && ok
-					v := sx.L(sx.A("datatype"), sx.S(src), sx.S(mm[2]), sx.A(mm[1]), sx.B(c.negated), sx.S(a.dt))
-					pending = &v
-				} else if mm := reCmpA.FindStringSubmatch(line); mm != nil {
-					a, ok := byKind("cmp")
-					okShape = okShape && ok
-					// (cmp srcA ruleA srcB ruleB negated cid op): srcB / ruleB are filled in at the second binding line
-					v := sx.L(sx.A("cmp"), sx.S(src), sx.S(mm[1]), sx.S(""), sx.S(""), sx.B(c.negated), sx.S(a.cid), sx.S(a.cond))
-					pending = &v
-				} else if mm := reCmpB.FindStringSubmatch(line); mm != nil && pending != nil && pending.List[0].Atom == "cmp" {
-					pending.List[3], pending.List[4] = sx.S(src), sx.S(mm[1])
-				} else if mm := reNum.FindStringSubmatch(line); mm != nil {
-					a, ok := byKind("numeric")
-					okShape = okShape && ok
-					v := sx.L(sx.A("numeric"), sx.S(src), sx.S(mm[2]), sx.A(mm[1]), sx.B(c.negated), sx.S(a.cid), sx.S(a.cond), sx.S(a.ktext))
-					pending = &v
-				} else if mm := reIn.FindStringSubmatch(line); mm != nil {
-					a, _ := byKind("in") // (a containsAll / containsSome snippet starts with the same line; decided below)
-					vs := []sx.V{}
-					for _, x := range a.vals {
-						vs = append(vs, sx.S(x))
-					}
-					// (in src rule n1 n2 negated vals): n1 is filled in when the line binding the value set is met
-					v := sx.L(sx.A("in"), sx.S(src), sx.S(mm[2]), sx.A("0"), sx.A(mm[1]), sx.B(c.negated), sx.L(vs...))
-					pending = &v
-				} else if mm := reInSet.FindStringSubmatch(line); mm != nil && pending != nil && pending.List[0].Atom == "in" {
-					pending.List[3] = sx.A(mm[1])
-				} else if mm := reContains.FindStringSubmatch(line); mm != nil && pending != nil && pending.List[0].Atom == "in" {
-					// the binding line looked like the one of `in`; the value set tells containsAll / containsSome
-					a, ok := byKind(mm[1])
-					okShape = okShape && ok
-					vs := []sx.V{}
-					for _, x := range a.vals {
-						vs = append(vs, sx.S(x))
-					}
-					v := sx.L(sx.A("contains"), sx.B(mm[1] == "containsAll"), pending.List[1], pending.List[2], pending.List[4], sx.A(mm[2]), sx.B(c.negated), sx.L(vs...))
-					pending = &v
-				} else if mm := reTrace.FindStringSubmatch(line); mm != nil && pending != nil {
-					pending.List = append(pending.List, sx.S(mm[2]))
-					snips = append(snips, *pending)
-					pending = nil
+				iris := []sx.V{}
+				for _, i := range m.iris {
+					iris = append(iris, sx.S(i))
 				}
-			}
-			iris := []sx.V{}
-			for _, i := range m.iris {
-				iris = append(iris, sx.S(i))
-			}
-			replay := map[string]any{"profile": profile, "case": c.label, "impl_rule": strings.Join(rule, "\n")}
-			if !okShape || len(snips) != len(c.atoms) {
-				replay["no_failing_input_found"] = true
-				replay["broken"] = "correspondence RuleGen.rule_lines vs generator (the rule does not have the snippets of the profile's constraints)"
-				res.Violate("model-mismatch", "the rule generated for "+c.label+" does not have the shape RuleGen models", replay)
-				continue
-			}
-			ans, derr := e.Driver.Eval(sx.L(sx.A("c07"), sx.A("rule-lines"), sx.S(level), sx.S("x"), sx.S(ExNS+"T"), sx.S(name), sx.L(snips...), sx.L(iris...), sx.S(m.text)))
-			if derr != nil {
-				res.Violate("harness-error", derr.Error(), map[string]any{"no_failing_input_found": true, "broken": "driver"})
-				break
-			}
-			model := []string{}
-			for _, l := range ans.List {
-				model = append(model, l.Text())
-			}
-			if strings.Join(model, "\n") != strings.Join(rule, "\n") {
-				replay["no_failing_input_found"] = true
-				replay["broken"] = "correspondence RuleGen.rule_lines vs generator/expression.go + count.go / pattern.go / datatype.go"
-				replay["model_rule"] = strings.Join(model, "\n")
-				replay["first_diff_line"] = firstDiff(strings.Join(model, "\n"), strings.Join(rule, "\n"))
-				res.Violate("model-mismatch", "the text of the rule generated for "+c.label+" differs from RuleGen.rule_lines", replay)
+				replay := map[string]any{"profile": profile, "case": c.label, "impl_rule": strings.Join(rule, "\n")}
+				if !okShape || len(snips) != perRule {
+					replay["no_failing_input_found"] = true
+					replay["broken"] = "correspondence RuleGen.rule_lines vs generator (the rule does not have the snippets of the profile's constraints)"
+					res.Violate("model-mismatch", "the rule generated for "+c.label+" does not have the shape RuleGen models", replay)
+					continue
+				}
+				ans, derr := e.Driver.Eval(sx.L(sx.A("c07"), sx.A("rule-lines"), sx.S(level), sx.S("x"), sx.S(ExNS+"T"), sx.S(name), sx.L(snips...), sx.L(iris...), sx.S(m.text)))
+				if derr != nil {
+					res.Violate("harness-error", derr.Error(), map[string]any{"no_failing_input_found": true, "broken": "driver"})
+					break
+				}
+				model := []string{}
+				for _, l := range ans.List {
+					model = append(model, l.Text())
+				}
+				if strings.Join(model, "\n") != strings.Join(rule, "\n") {
+					replay["no_failing_input_found"] = true
+					replay["broken"] = "correspondence RuleGen.rule_lines vs generator/expression.go + count.go / pattern.go / datatype.go"
+					replay["model_rule"] = strings.Join(model, "\n")
+					replay["first_diff_line"] = firstDiff(strings.Join(model, "\n"), strings.Join(rule, "\n"))
+					res.Violate("model-mismatch", "the text of the rule generated for "+c.label+" differs from RuleGen.rule_lines", replay)
+				}
 			}
 			n++
 			res.Case("rule-text|"+c.label+"|"+level+"|"+m.text, true)
